@@ -178,6 +178,8 @@ static bool gen_one(qop *op, gctx c) {
 	}
 	op->item = new_item(op, c.client, c.parent_item, -1);
 	if (op->item < 0) return false;
+	// a quarter of the submissions have their thread descheduled somewhere inside the call
+	if (g_chance(1, 4)) { op->arm_rel = g_range(1, 45); op->arm_code = g_range(1, 4); }
 	gen_body(op, c);
 	return true;
 }
@@ -519,6 +521,7 @@ static void run_one(qop *op, int client, qitem *from) {
 	if (it->barrier) RES.counters[QC_BARRIERS]++;
 	it->call = h_stamp();
 	h_log("call %s item %d q%d", opnames[op->kind], it->id, op->q);
+	if (op->arm_rel) sim_arm_stall((uint32_t)op->arm_rel, op->arm_code);
 	switch (op->kind) {
 	case OP_ASYNC: if (op->form) dispatch_async(q, ^{ item_body(it); }); else dispatch_async_f(q, it, item_fn); break;
 	case OP_BARRIER_ASYNC:
